@@ -145,7 +145,8 @@ class DiscoverSubcircuits(UsedQubitIndicesVisitor):
 
 
 class TraceVisitor(Visitor):
-    """Call process_trace at the start of every trace in execution order."""
+    """Call process_trace once for every executed measurement: the walk goes to the end
+    (the measure_all) of every trace in execution order."""
 
     def __init__(self, traces):
         self.traces = traces
@@ -158,7 +159,7 @@ class TraceVisitor(Visitor):
     def visit_Circuit(self, circuit):
         if len(self.traces) == 0:
             return
-        self.objective = self.traces[self.index].start
+        self.objective = self.traces[self.index].end
 
         return self.visit(circuit.body)
 
@@ -183,7 +184,7 @@ class TraceVisitor(Visitor):
                     self.objective = None
                     return
                 else:
-                    self.objective = self.traces[self.index].start
+                    self.objective = self.traces[self.index].end
             else:
                 address.append(n)
                 self.visit(nxt)
@@ -211,7 +212,7 @@ class TraceVisitor(Visitor):
                 if self.index == len(self.traces):
                     self.objective = None
                 else:
-                    self.objective = self.traces[self.index].start
+                    self.objective = self.traces[self.index].end
 
     def visit_CaseStatement(self, case):
         # store the walk status
